@@ -62,6 +62,55 @@ pub fn corr(tier: &str, seed: u64, c: &mut Corr) {
             c.emit(&format!("writenum {} {}", p, hx(held)), &hx(if v == 0.0 { 0.0 } else { v }));
         }
     }
+    // ---- colours: what write_color writes for a tree colour, and what the parser reads from a #-token
+    let nc = if tier == "thorough" { 3000 } else { 400 };
+    let hexs = |s: &str| s.bytes().map(|b| format!("{:02x}", b)).collect::<String>();
+    for i in 0..nc {
+        let (r, g, b) = if i < 48 { ([0u8, 1, 15, 16, 17, 127, 128, 254, 255, 9, 10, 160][i % 12], [0u8, 255, 16, 10][i / 12], [0u8, 15, 255, 171][(i / 3) % 4]) } else { (rng.below(256) as u8, rng.below(256) as u8, rng.below(256) as u8) };
+        // (1) writer: fill (paint), stop-color and flood-color go through write_color
+        let svg = format!(
+            r##"<svg xmlns="http://www.w3.org/2000/svg" width="10" height="10"><filter id="f"><feFlood flood-color="rgb({r},{g},{b})"/></filter><linearGradient id="l"><stop offset="0" stop-color="rgb({r},{g},{b})"/><stop offset="1"/></linearGradient><rect width="5" height="5" fill="rgb({r},{g},{b})" stroke="url(#l)" filter="url(#f)"/></svg>"##
+        );
+        let Ok(Ok(t)) = pan::catch(|| usvg::Tree::from_str(&svg, &o)) else { continue };
+        let Ok(text) = pan::catch(|| t.to_string(&usvg::WriteOptions::default())) else { continue };
+        for attr in [" fill=\"", " stop-color=\"", " flood-color=\""] {
+            if let Some(i0) = text.find(attr) {
+                let v = &text[i0 + attr.len()..];
+                let v = &v[..v.find('"').unwrap_or(v.len())];
+                c.emit(&format!("writecolor {} {} {}", r, g, b), v);
+            }
+        }
+        // (2) parser: a #-token as a stroke paint (an invalid paint leaves the stroke unset)
+        let tok: String = match i % 6 {
+            0 => format!("#{:02x}{:02x}{:02x}", r, g, b),
+            1 => format!("#{:02X}{:02x}{:02X}", r, g, b),
+            2 => format!("#{:x}{:x}{:x}", r % 16, g % 16, b % 16),
+            3 => {
+                // wrong length or a non-hex character
+                let mut s = format!("#{:02x}{:02x}{:02x}", r, g, b);
+                match rng.below(4) {
+                    0 => { s.pop(); }
+                    1 => s.push('0'),
+                    2 => s.replace_range(3..4, "g"),
+                    _ => s.truncate(3),
+                }
+                s
+            }
+            4 => format!("#{:X}{:X}{:X}", r % 16, g % 16, b % 16),
+            _ => format!("#{:02x}{:02x}{:02x}", b, r, g),
+        };
+        let svg = format!(r##"<svg xmlns="http://www.w3.org/2000/svg" width="10" height="10"><path d="M 1 1 L 9 9" stroke="{}"/><rect width="2" height="2"/></svg>"##, tok);
+        let Ok(Ok(t)) = pan::catch(|| usvg::Tree::from_str(&svg, &o)) else { continue };
+        let ans = match t.root().children().first() {
+            Some(usvg::Node::Path(p)) if p.data().len() == 2 => match p.stroke().map(|s| s.paint()) {
+                Some(usvg::Paint::Color(c)) => format!("{} {} {}", c.red, c.green, c.blue),
+                _ => "none".to_string(),
+            },
+            // the line was dropped: no stroke
+            _ => "none".to_string(),
+        };
+        c.emit(&format!("parsecolor {}", hexs(&tok)), &ans);
+    }
 }
 
 /// the shared noise-tolerant comparison, with the flat-area budget widened to 0.2 % of the image:
